@@ -43,7 +43,7 @@ def _build_two(spec):
 def _tols(spec, dt):
     if spec["kind"] == "stft":
         return (1e-9, 1e-12) if dt == "f64" else (2e-6, 1e-6)
-    return (1e-7, 1e-10) if dt == "f64" else (2e-5, 1e-5)
+    return (1e-9, 1e-11) if dt == "f64" else (2e-6, 1e-6)
 
 
 def _run_chunked(comp, x, lens):
